@@ -12,8 +12,9 @@ ID = "C20"
 LEVEL = "exploration"
 RULE = ("valid event histories of 3-14 time points over definitions A, B, V/#: Onset/Offset processes (restarts, open at "
         "end), Duration groups in s/ms/minute/hour (ending exactly at a time point, between points, past the last row), "
-        "Delay-shifted Onset and Duration groups, equal-onset rows, plain tags and empty rows; every process has a unique "
-        "Label/Pnn. Histories are pre-validated with TabularInput.validate. non-trivial = history with >= 2 processes "
+        "Delay-shifted Onset and Duration groups, equal-onset rows, plain tags and empty rows; every process has a "
+        "Label/Pnn, unique except that ~30 % of Duration processes are twins of an earlier one (same content text, "
+        "compared as multisets). Histories are pre-validated with TabularInput.validate. non-trivial = history with >= 2 processes "
         "of which one spans another time point; distinct = distinct file content")
 ASSUMPTIONS = ["interval model in this file; end of a Duration process computed with the same float operations as the "
                "property's 'start plus duration in default units' (unit factors from the schema XML oracle)",
@@ -52,6 +53,7 @@ def gen_history(rng):
         return pid[0]
     plan = {i: [] for i in range(ntp)}     # tp index -> list of (text_without_delay, kind)
     procs = []                             # model processes: dict(pid, start_tp, end: ('tp', k)|('time', x)|('inf',))
+    dur_contents = []                      # (pid, inner text, tp, sval) of Duration processes, for twins
     for i in range(ntp):
         used = set()
         for _ in range(rng.choice([0, 1, 1, 2, 3])):
@@ -91,8 +93,15 @@ def gen_history(rng):
                 sval = repr(val) if val != int(val) else str(int(val))
                 if "e" in sval or len(sval) > 14:
                     sval = str(round(val, 3))
+                inner = f"(Label/P{p}, {rng.choice(PLAIN)})"
+                if dur_contents and rng.random() < 0.3:
+                    # a twin: another process with textually identical content (same label), listed once per process
+                    tp_, inner_ = rng.choice(dur_contents)[:2]
+                    if not any(c[1] == inner_ and c[2] == i and c[3] == (sval, unit) for c in dur_contents):
+                        p, inner = tp_, inner_
+                dur_contents.append((p, inner, i, (sval, unit)))
                 procs.append(dict(pid=p, start_tp=i, end=("dur", sval, fac)))
-                plan[i].append((f"Duration/{sval} {unit}, (Label/P{p}, {rng.choice(PLAIN)})", "duration"))
+                plan[i].append((f"Duration/{sval} {unit}, {inner}", "duration"))
     # realise: rows per time point; some groups delayed from an earlier time point's row
     tp_rows = {i: [[]] for i in range(ntp)}
     for i in range(ntp):
